@@ -3,6 +3,14 @@
 -/
 import QEModel.C16
 import QEProofs.Lemmas.C16Comb
+import QEProofs.Lemmas.C16CombGuard
+import QEProofs.Lemmas.C16KArray
+import QEProofs.Lemmas.C16Repeat
+import QEProofs.Lemmas.C16Cart
+import QEProofs.Lemmas.C16Nearest
+import QEProofs.Lemmas.C16NearestIdx
+import QEProofs.Lemmas.C16Simplex
+import QEProofs.Lemmas.C16SimplexIdx
 namespace QE.C16
 
 /-! ## comb_jit -/
@@ -101,6 +109,43 @@ theorem combJit_exact (N k : Nat) (hk : k ≤ N) (hN : (N : Int) < intpMax)
   · omega
   · have := hfit j hj; omega
 
+/-- **Closed form of the overflow guard.** For `0 ≤ k ≤ N < INTP_MAX`, `comb_jit` returns the
+    exact binomial iff `min(k, N−k) · C(N,k) ≤ INTP_MAX` (the largest intermediate product is
+    the last one, `t·C(N,t)`); otherwise it returns 0 (`combJit_choose_or_zero`). So the
+    result can be 0 although `C(N,k)` itself fits, by a factor of up to `min(k, N−k)`. -/
+theorem combJit_exact_iff_guard (N k : Nat) (hk : k ≤ N) (hN : (N : Int) < intpMax) :
+    combJit N k = (Nat.choose N k : Int) ↔
+      ((min k (N - k) * Nat.choose N k : Nat) : Int) ≤ intpMax := by
+  have ht : min k (N - k) ≤ N / 2 := by omega
+  have hct := choose_min N k hk
+  constructor
+  · intro h
+    by_cases h0 : min k (N - k) = 0
+    · rw [h0]; simp; decide
+    · have hpos := Nat.choose_pos hk
+      have hne : combJit N k ≠ 0 := by rw [h]; omega
+      have hnb := (combJit_eq_zero_iff N k hk (Int.le_of_lt hN)).not.mp hne
+      have hlast : ¬ intpMax < combProd N (min k (N - k) - 1) := by
+        intro hc
+        exact hnb (Or.inr ⟨min k (N - k) - 1, by omega, by unfold combProd at hc; exact hc⟩)
+      rw [combProd_eq N _ (by omega)] at hlast
+      have e : min k (N - k) - 1 + 1 = min k (N - k) := by omega
+      rw [e, hct] at hlast
+      omega
+  · intro h
+    apply combJit_exact N k hk hN
+    intro j hj
+    have := combProd_le_last N (min k (N - k)) j ht hj
+    rw [hct] at this
+    unfold combProd at this
+    exact Int.le_trans this h
+
+example : ((min 33 (66 - 33) * Nat.choose 66 33 : Nat) : Int) > intpMax ∧
+    (Nat.choose 66 33 : Int) ≤ intpMax ∧ combJit 66 33 = 0 := by decide
+example : ((min 2 (4000000000 - 2) * Nat.choose 4000000000 2 : Nat) : Int) > intpMax ∧
+    (Nat.choose 4000000000 2 : Int) ≤ intpMax := by
+  rw [Nat.choose_two_right]; decide
+
 /-- **No wrap-around.** On all `int64` inputs the model on unbounded integers (`combJit`)
     equals the same program with every arithmetic result reduced to `int64` (`combJitW`):
     every intermediate value of `comb_jit` lies in `[0, INTP_MAX]`. -/
@@ -152,5 +197,372 @@ theorem chooseNat_eq_choose' (n k : Nat) : chooseNat n k = Nat.choose n k :=
 theorem numCompositions_eq (m n : Nat) :
     numCompositions m n = Nat.choose (n + m - 1) (m - 1) :=
   chooseFast_eq_choose _ _
+
+/-! ## next_k_array / k_array_rank (Knuth 7.2.1.3 Algorithm T, combinatorial number system)
+
+All statements are about the literal model (`nextKArray` with `List.set`/`getD` and the fuelled
+`while` loop `nkLoop`; `kArrayRank = Σ_i C(a_i, i+1)`); "strictly increasing" is
+`List.Pairwise (· < ·)`. Proofs: `QEProofs/Lemmas/C16KArray.lean`. -/
+
+/-- **Successor step.** For a non-empty strictly increasing array, `next_k_array` returns a
+    strictly increasing array of the same length whose rank is exactly one larger. -/
+theorem nextKArray_rank_succ (a : List Nat) (hne : a ≠ []) (hp : a.Pairwise (· < ·)) :
+    (nextKArray a).length = a.length ∧ (nextKArray a).Pairwise (· < ·) ∧
+      kArrayRank (nextKArray a) = kArrayRank a + 1 :=
+  ⟨nextKArray_length a, nextKArray_pairwise a hp, kArrayRank_next a hne hp⟩
+
+example : ([1, 2, 5] : List Nat) ≠ [] ∧ ([1, 2, 5] : List Nat).Pairwise (· < ·) := by decide
+example : nextKArray [1, 2, 5] = [0, 3, 5] ∧ kArrayRank [0, 3, 5] = kArrayRank [1, 2, 5] + 1 := by
+  decide
+
+/-- the start of the walk, `arange(k)`, has rank 0 -/
+theorem kArrayRank_arange (k : Nat) : kArrayRank (List.range k) = 0 := kArrayRank_range k
+
+/-- **Rank range.** For a strictly increasing `k`-array, `rank a < C(n,k)` iff its largest
+    element is `< n` (i.e. iff `a ⊆ {0..n-1}`): the `k`-subsets of `{0..n-1}` are exactly the
+    arrays of rank `< C(n,k)`. -/
+theorem kArrayRank_lt_choose_iff (a : List Nat) (hne : a ≠ []) (hp : a.Pairwise (· < ·))
+    (n : Nat) : kArrayRank a < Nat.choose n a.length ↔ a.getLast hne < n :=
+  kArrayRank_lt_iff a hne hp n
+
+example : kArrayRank [1, 2, 5] < Nat.choose 6 3 ∧ ¬ kArrayRank [1, 2, 5] < Nat.choose 5 3 := by
+  decide
+
+/-- **Injectivity** of the rank on strictly increasing arrays of equal length
+    (combinatorial number system). -/
+theorem kArrayRank_injective (a b : List Nat) (hlen : a.length = b.length)
+    (hpa : a.Pairwise (· < ·)) (hpb : b.Pairwise (· < ·))
+    (hr : kArrayRank a = kArrayRank b) : a = b :=
+  kArrayRank_inj a b hlen hpa hpb hr
+
+/-- **The walk.** Starting from `arange(k)`, `k ≥ 1`, the array after `j` calls of
+    `next_k_array` is strictly increasing, has length `k`, and `k_array_rank` of it is `j`:
+    `k_array_rank` is the position in the walk. -/
+theorem nextKArray_iterate_rank (k : Nat) (hk : 1 ≤ k) (j : Nat) :
+    (nextKArray^[j] (List.range k)).length = k ∧
+      (nextKArray^[j] (List.range k)).Pairwise (· < ·) ∧
+      kArrayRank (nextKArray^[j] (List.range k)) = j := by
+  rw [← walk_eq_iterate]; exact walk_range_spec k hk j
+
+/-- **Every `k`-subset of `{0..n-1}` exactly once, in rank order.** For `k ≥ 1` an array `a`
+    is a strictly increasing `k`-array with entries `< n` iff it is the `j`-th array of the walk
+    for some `j < C(n,k)`; that `j` is unique (the rank is `j`, previous theorem) and the loop
+    `while a[-1] < n` of the docstring therefore stops after exactly `C(n,k)` arrays. -/
+theorem nextKArray_walk_enumerates (k n : Nat) (hk : 1 ≤ k) (a : List Nat) :
+    (a.length = k ∧ a.Pairwise (· < ·) ∧ ∀ x ∈ a, x < n) ↔
+      ∃ j, j < Nat.choose n k ∧ nextKArray^[j] (List.range k) = a := by
+  rw [walk_enumerates k n hk a]
+  simp only [walk_eq_iterate]
+
+example : (List.range 6).map (fun j => nextKArray^[j] (List.range 2))
+    = [[0, 1], [0, 2], [1, 2], [0, 3], [1, 3], [2, 3]] := by decide
+
+/-- jitted twin, inner sum: if every `comb_jit` call is exact, the sum is the exact one -/
+theorem kArrayRankJitAux_eq : ∀ (l : List Nat) (i0 : Nat),
+    (∀ j (hj : j < l.length),
+      combJit (l[j] : Int) ((i0 + j : Nat) + 1 : Int) = (Nat.choose l[j] (i0 + j + 1) : Int)) →
+    kArrayRankJitAux (l.map Int.ofNat) (i0 : Int) = (kArrayRankAux l i0 : Int)
+  | [], _, _ => rfl
+  | x :: l, i0, h => by
+    have h0 := h 0 (by simp)
+    have ih := kArrayRankJitAux_eq l (i0 + 1) (fun j hj => by
+      have := h (j + 1) (by simpa using hj)
+      simp only [List.getElem_cons_succ] at this
+      have e : i0 + (j + 1) = i0 + 1 + j := by omega
+      rw [e] at this; exact this)
+    simp only [List.map_cons, kArrayRankJitAux, kArrayRankAux_cons]
+    simp only [List.getElem_cons_zero, Nat.add_zero] at h0
+    push_cast at ih h0 ⊢
+    rw [ih]
+    have : (Int.ofNat x) = (x : Int) := rfl
+    rw [this, h0]
+
+/-- **`k_array_rank_jit`.** Whenever each of its `comb_jit(a[i], i+1)` calls (`i ≥ 1`) returns
+    the exact binomial (see `combJit_spec` for exactly when), the jitted twin returns
+    `k_array_rank a`. (The docstring's "sufficient condition" `C(a[-1]+1, k) ≤ INTP_MAX` does
+    NOT imply this hypothesis: `a = [0, 4000000000]`, known finding `k_array_rank_jit_doc_guard`.)
+    The `int64` wrap of the running sum is not modelled; all partial sums are non-negative and
+    non-decreasing, so there is none iff the final rank is `≤ INTP_MAX`. -/
+theorem kArrayRankJit_eq (a : List Nat)
+    (h : ∀ i (hi : i < a.length), 1 ≤ i →
+      combJit (a[i] : Int) ((i : Int) + 1) = (Nat.choose a[i] (i + 1) : Int)) :
+    kArrayRankJit (a.map Int.ofNat) = (kArrayRank a : Int) := by
+  cases a with
+  | nil => rfl
+  | cons x l =>
+    have := kArrayRankJitAux_eq l 1 (fun j hj => by
+      have := h (j + 1) (by simpa using hj) (by omega)
+      simp only [List.getElem_cons_succ] at this
+      have e : 1 + j = j + 1 := by omega
+      rw [e]; push_cast at this ⊢; exact this)
+    simp only [List.map_cons, kArrayRankJit, kArrayRank, kArrayRankAux_cons]
+    push_cast at this ⊢
+    rw [this]
+    simp [Nat.choose_one_right]
+
+example : kArrayRankJit [1, 2, 5] = 12 ∧ kArrayRank [1, 2, 5] = 12 := by decide
+
+/-- **`k_array_rank_jit` under a correct sufficient guard.** If every entry is `< INTP_MAX` and
+    `(i+1)·C(a[i], i+1) ≤ INTP_MAX` for every position `i`, the jitted twin returns exactly
+    `k_array_rank a` (for strictly increasing `a`: the position in the walk). In the property's
+    scope `n ≤ 10` the guard is trivially true. -/
+theorem kArrayRankJit_eq_of_guard (a : List Nat)
+    (h : ∀ i (hi : i < a.length), (a[i] : Int) < intpMax ∧
+      (((i + 1) * Nat.choose a[i] (i + 1) : Nat) : Int) ≤ intpMax) :
+    kArrayRankJit (a.map Int.ofNat) = (kArrayRank a : Int) := by
+  apply kArrayRankJit_eq
+  intro i hi _
+  obtain ⟨h1, h2⟩ := h i hi
+  have e : ((i : Int) + 1) = ((i + 1 : Nat) : Int) := by push_cast; rfl
+  rw [e]
+  rcases Nat.lt_or_ge a[i] (i + 1) with hlt | hge
+  · rw [combJit_outside _ _ (Or.inr (Or.inr (by omega))), Nat.choose_eq_zero_of_lt hlt]; rfl
+  · rw [combJit_exact_iff_guard a[i] (i + 1) hge h1]
+    have : min (i + 1) (a[i] - (i + 1)) * Nat.choose a[i] (i + 1)
+        ≤ (i + 1) * Nat.choose a[i] (i + 1) := Nat.mul_le_mul_right _ (Nat.min_le_left _ _)
+    omega
+
+example : ∀ i (hi : i < ([1, 2, 5] : List Nat).length), (([1, 2, 5] : List Nat)[i] : Int) < intpMax ∧
+    (((i + 1) * Nat.choose ([1, 2, 5] : List Nat)[i] (i + 1) : Nat) : Int) ≤ intpMax := by decide
+
+/-! ## cartesian / _repeat_1d / _cartesian_index  (proofs: `Lemmas/C16Repeat`, `Lemmas/C16Cart`) -/
+
+/-- **`_repeat_1d`.** With `N = len x`, `L = total // (K·N)`: the output has length `total`
+    and every position `ind < K·N·L` holds `x[(ind / L) % N]` (the rest, if `K·N ∤ total`,
+    stays 0). -/
+theorem repeat1d_spec {α : Type} [Zero α] (x : List α) (K total : Nat) :
+    (repeat1d x K total).length = total ∧
+    (∀ ind, ind < K * x.length * (total / (K * x.length)) →
+      (repeat1d x K total).getD ind 0
+        = x.getD ((ind / (total / (K * x.length))) % x.length) 0) ∧
+    (∀ ind, K * x.length * (total / (K * x.length)) ≤ ind →
+      (repeat1d x K total).getD ind 0 = 0) := by
+  refine ⟨repeat1d_length x K total, fun ind h => ?_, fun ind h => repeat1d_getD_rest x K total ind h⟩
+  refine repeat1d_getD x K total ind ?_ h
+  rw [Nat.mul_comm]; exact Nat.div_mul_le_self _ _
+
+example : repeat1d [7, 8, 9] 2 12 = ([7, 7, 8, 8, 9, 9, 7, 7, 8, 8, 9, 9] : List Int) := by decide
+
+/-- **`cartesian`, both orders.** The grid has `∏ shapes` rows of `len(nodes)` entries, and
+    entry `(r, d)` is `nodes[d][digit]`, where `digit = (r / ∏_{e>d} shape_e) % shape_d` for
+    order C (last index fastest) and `(r / ∏_{e<d} shape_e) % shape_d` for order F. -/
+theorem cartesian_spec {α : Type} [Zero α] (nodes : List (List α)) :
+    (∀ o, (cartesian nodes o).length = (nodes.map List.length).prod) ∧
+    ∀ r, r < (nodes.map List.length).prod →
+      (∀ o, ((cartesian nodes o).getD r []).length = nodes.length) ∧
+      ∀ d, d < nodes.length →
+        ((cartesian nodes false).getD r []).getD d 0
+          = (nodes.getD d []).getD (digitC (nodes.map List.length) d r) 0 ∧
+        ((cartesian nodes true).getD r []).getD d 0
+          = (nodes.getD d []).getD (digitF (nodes.map List.length) d r) 0 :=
+  ⟨fun o => cartesian_length nodes o, fun r hr =>
+    ⟨fun o => cartesian_row_length nodes o r hr, fun d hd =>
+      ⟨cartesian_C nodes r d hr hd, cartesian_F nodes r d hr hd⟩⟩⟩
+
+example : cartesian [[1, 2], [10, 20, 30]] false
+    = ([[1, 10], [1, 20], [1, 30], [2, 10], [2, 20], [2, 30]] : List (List Int)) := by decide
+example : cartesian [[1, 2], [10, 20, 30]] true
+    = ([[1, 10], [2, 10], [1, 20], [2, 20], [1, 30], [2, 30]] : List (List Int)) := by decide
+
+/-- **`_cartesian_index` is the inverse of the digit maps** (so row numbers and valid index
+    tuples are in bijection, in the same enumeration as `cartesian`): for `r < ∏ shapes`,
+    the index of the C-digits of `r` is `r`, and (the code passes both arrays reversed for
+    order F) the index of the reversed F-digits w.r.t. the reversed shapes is `r`; conversely
+    the digits of the index of a valid tuple are the tuple. -/
+theorem cartesianIndex_digits (s : List Nat) :
+    (∀ r, r < s.prod → cartesianIndex (digitsC s r) s = r ∧
+        cartesianIndex (digitsF s r).reverse s.reverse = r) ∧
+    (∀ inds, ValidIdx inds s →
+        cartesianIndex inds s < s.prod ∧ digitsC s (cartesianIndex inds s) = inds ∧
+        cartesianIndex inds.reverse s.reverse < s.prod ∧
+        digitsF s (cartesianIndex inds.reverse s.reverse) = inds) :=
+  ⟨fun r hr => ⟨cartesianIndex_digitsC s r hr, cartesianIndex_digitsF s r hr⟩,
+   fun inds h => ⟨(digitsC_cartesianIndex inds s h).1, (digitsC_cartesianIndex inds s h).2,
+     (digitsF_cartesianIndex inds s h).1, (digitsF_cartesianIndex inds s h).2⟩⟩
+
+example : digitsC [2, 3, 4] 17 = [1, 1, 1] ∧ cartesianIndex [1, 1, 1] [2, 3, 4] = 17 := by decide
+example : digitsF [2, 3, 4] 17 = [1, 2, 2] ∧
+    cartesianIndex ([1, 2, 2] : List Nat).reverse ([2, 3, 4] : List Nat).reverse = 17 := by decide
+example : ValidIdx [1, 2, 2] [2, 3, 4] := by simp [ValidIdx]
+
+/-- **The product grid is complete and repetition-free, in the stated order.** For every valid
+    index tuple `inds` (one index below each grid length), the row of `cartesian nodes` numbered
+    `_cartesian_index(inds)` (C: as is; F: both arrays reversed, as the code does) is the point
+    `(nodes[d][inds[d]])_d`; with `cartesianIndex_digits` (a bijection between valid tuples and
+    row numbers) every element of the product occurs in exactly one row. -/
+theorem cartesian_row_of_index {α : Type} [Zero α] (nodes : List (List α)) (inds : List Nat)
+    (h : ValidIdx inds (nodes.map List.length)) (d : Nat) (hd : d < nodes.length) :
+    ((cartesian nodes false).getD (cartesianIndex inds (nodes.map List.length)) []).getD d 0
+        = (nodes.getD d []).getD (inds.getD d 0) 0 ∧
+    ((cartesian nodes true).getD
+        (cartesianIndex inds.reverse (nodes.map List.length).reverse) []).getD d 0
+        = (nodes.getD d []).getD (inds.getD d 0) 0 := by
+  have hC := digitsC_cartesianIndex inds _ h
+  have hF := digitsF_cartesianIndex inds _ h
+  have hds : d < (nodes.map List.length).length := by simpa using hd
+  constructor
+  · rw [cartesian_C nodes _ d hC.1 hd, ← digitsC_getD _ _ _ hds, hC.2]
+  · rw [cartesian_F nodes _ d hF.1 hd, ← digitsF_getD _ _ _ hds, hF.2]
+
+example : ((cartesian ([[1, 2], [10, 20, 30]] : List (List Int)) false).getD
+    (cartesianIndex [1, 2] [2, 3]) []) = [2, 30] := by decide
+
+/-- `_cartesian_index` as a closed formula: `Σ_p indices[p] · ∏_{q>p} nums[q]` -/
+theorem cartesianIndex_formula (inds nums : List Nat) (hlen : inds.length = nums.length) :
+    cartesianIndex inds nums = ciVal inds nums := cartesianIndex_eq_ciVal inds nums hlen
+
+/-! ## cartesian_nearest_index  (proofs: `Lemmas/C16Nearest`, `Lemmas/C16NearestIdx`) -/
+
+section
+variable {K : Type} [Field K] [LinearOrder K] [IsStrictOrderedRing K]
+
+/-- `np.searchsorted(g, x)` as modelled: everything before the position is `< x`, the element
+    at the position (if any) is `≥ x` — for any list. -/
+theorem searchLeft_is_lower_bound (g : List K) (x : K) :
+    searchLeft g x ≤ g.length ∧ (∀ i, i < searchLeft g x → g.getD i 0 < x) ∧
+      (searchLeft g x < g.length → x ≤ g.getD (searchLeft g x) 0) :=
+  searchLeft_spec g x
+
+/-- **Per-dimension step is an argmin.** On a non-empty sorted grid the chosen index is valid
+    and minimises `|x − g[i]|`; on a strictly increasing grid all lower indices are strictly
+    farther (ties, e.g. exact mid-points, go to the lower index). -/
+theorem nearest1_is_argmin (g : List K) (x : K) (hne : g ≠ []) (hs : g.Pairwise (· ≤ ·)) :
+    nearest1 g x < g.length ∧
+      (∀ i, i < g.length → |x - g.getD (nearest1 g x) 0| ≤ |x - g.getD i 0|) ∧
+      (g.Pairwise (· < ·) →
+        ∀ i, i < nearest1 g x → |x - g.getD (nearest1 g x) 0| < |x - g.getD i 0|) :=
+  ⟨(nearest1_argmin g x hne hs).1, (nearest1_argmin g x hne hs).2,
+   fun hss => nearest1_lower_strict g x hss⟩
+
+example : nearest1 ([0, 1, 3] : List Rat) 2 = 1 ∧ nearest1 ([0, 1, 3] : List Rat) (5/2) = 2 ∧
+    nearest1 ([0, 1, 3] : List Rat) (-1) = 0 ∧ nearest1 ([0, 1, 3] : List Rat) 7 = 2 := by
+  decide +kernel
+
+/-- **`cartesian_nearest_index`.** For non-empty sorted grids and either order, the returned
+    index is a row number of `cartesian nodes order`, that row consists of the per-dimension
+    nearest grid values, and no row of the product grid is closer to `x` in (squared) Euclidean
+    distance. -/
+theorem nearestIndex_is_argmin (nodes : List (List K)) (x : List K) (o : Bool)
+    (hn : ∀ g ∈ nodes, g ≠ [] ∧ g.Pairwise (· ≤ ·)) :
+    nearestIndex nodes x o < (cartesian nodes o).length ∧
+    (∀ d, d < nodes.length →
+      ((cartesian nodes o).getD (nearestIndex nodes x o) []).getD d 0
+        = (nodes.getD d []).getD (nearest1 (nodes.getD d []) (x.getD d 0)) 0) ∧
+    ∀ r', r' < (cartesian nodes o).length →
+      sqDist nodes.length x ((cartesian nodes o).getD (nearestIndex nodes x o) [])
+        ≤ sqDist nodes.length x ((cartesian nodes o).getD r' []) :=
+  nearestIndex_argmin nodes x o hn
+
+end
+
+example : nearestIndex ([[0, 1, 3], [10, 20]] : List (List Rat)) [2, 16] false = 3 ∧
+    nearestIndex ([[0, 1, 3], [10, 20]] : List (List Rat)) [2, 16] true = 4 := by decide +kernel
+
+/-! ## simplex_grid / simplex_index / num_compositions
+    (proofs: `Lemmas/C16Simplex`, `Lemmas/C16SimplexIdx`)
+
+All statements are about the literal model: `sgStep` (the loop body with the pointer `h`,
+`List.set`/`getD`), `sgRows`, `simplexGrid` (`none` = the `ValueError`), and `simplexIndex`
+(`decumsum` + the `break`ing loop). A composition is a list with `length = m` and `sum = n`;
+`<` on `List Nat` is the lexicographic order. -/
+
+/-- the `ValueError` branch of `simplex_grid` is taken exactly when `num_compositions_jit`
+    (i.e. `comb_jit`) returns 0 -/
+theorem simplexGrid_valueError_iff (m n : Nat) :
+    simplexGrid m n = none ↔ numCompositionsJit m n = 0 := simplexGrid_eq_none_iff m n
+
+/-- `num_compositions_jit(m, n)` is the exact number `C(n+m−1, m−1)` or 0 (overflow guard of
+    `comb_jit`, characterised by `combJit_eq_zero_iff`) -/
+theorem numCompositionsJit_exact_or_zero (m n : Nat) (hm : 1 ≤ m)
+    (hN : ((n + m - 1 : Nat) : Int) ≤ intpMax) :
+    numCompositionsJit m n = (numCompositions m n : Int) ∨ numCompositionsJit m n = 0 := by
+  have h := combJit_choose_or_zero (n + m - 1) (m - 1) (by omega) hN
+  have e1 : ((n + m - 1 : Nat) : Int) = (n : Int) + (m : Int) - 1 := by omega
+  have e2 : ((m - 1 : Nat) : Int) = (m : Int) - 1 := by omega
+  unfold numCompositionsJit
+  rw [numCompositions_eq, ← e1, ← e2]
+  exact h
+
+/-- **`simplex_grid` lists every `m`-part composition of `n` exactly once, in lexicographic
+    order; `simplex_index` is its inverse; `num_compositions` its length.** (Under the
+    no-overflow condition `hL`, which by the two theorems above fails only in the `ValueError`
+    case.) The grid has `L = num_compositions(m,n)` rows; a list is a row iff it is a
+    composition; the rows are strictly increasing lexicographically (hence pairwise distinct);
+    and for every composition `y`, `simplex_index(y)` is the row number of `y`. -/
+theorem simplexGrid_enumerates (m n : Nat) (hm : 1 ≤ m)
+    (hL : numCompositionsJit m n = numCompositions m n) :
+    ∃ rows, simplexGrid m n = some rows ∧ rows.length = numCompositions m n ∧
+      (∀ y, y ∈ rows ↔ y.length = m ∧ y.sum = n) ∧
+      rows.Pairwise (· < ·) ∧
+      ∀ y, y.length = m → y.sum = n →
+        ∃ i, i < numCompositions m n ∧ simplexIndex y m n = i ∧ rows[i]? = some y :=
+  simplexGrid_full_spec m n hm hL
+
+example : numCompositionsJit 3 4 = numCompositions 3 4 := by decide
+example : simplexGrid 2 3 = some [[0, 3], [1, 2], [2, 1], [3, 0]] := by decide
+
+/-- the two outcomes of `simplex_grid(m, n)` for `m ≥ 1`, `n+m−1 ≤ INTP_MAX`: `ValueError`
+    with `comb_jit = 0`, or the complete lexicographic enumeration -/
+theorem simplexGrid_error_or_enumerates (m n : Nat) (hm : 1 ≤ m)
+    (hN : ((n + m - 1 : Nat) : Int) ≤ intpMax) :
+    (simplexGrid m n = none ∧ numCompositionsJit m n = 0) ∨
+    ∃ rows, simplexGrid m n = some rows ∧ rows.length = numCompositions m n ∧
+      (∀ y, y ∈ rows ↔ y.length = m ∧ y.sum = n) ∧ rows.Pairwise (· < ·) ∧
+      ∀ y, y.length = m → y.sum = n →
+        ∃ i, i < numCompositions m n ∧ simplexIndex y m n = i ∧ rows[i]? = some y := by
+  rcases numCompositionsJit_exact_or_zero m n hm hN with h | h
+  · exact Or.inr (simplexGrid_full_spec m n hm h)
+  · exact Or.inl ⟨(simplexGrid_eq_none_iff m n).mpr h, h⟩
+
+/-- **Row by row**: row `i` of the grid (for every `i < L`) is a composition whose
+    `simplex_index` is `i`; the first row is `(0,…,0,n)` and the last `(n,0,…,0)`. -/
+theorem simplexGrid_rows (m n : Nat) (hm : 1 ≤ m) :
+    (∀ i, i < numCompositions m n →
+      ∃ row, (sgRows m (numCompositions m n) (sgInit m n))[i]? = some row ∧
+        row.length = m ∧ row.sum = n ∧ simplexIndex row m n = i) ∧
+    (sgRows m (numCompositions m n) (sgInit m n))[0]? = some (List.replicate (m - 1) 0 ++ [n]) ∧
+    (sgRows m (numCompositions m n) (sgInit m n))[numCompositions m n - 1]?
+      = some (n :: List.replicate (m - 1) 0) :=
+  ⟨fun i hi => simplexGrid_row_spec m n i hm hi, simplexGrid_first_row m n hm,
+    simplexGrid_last_row m n hm⟩
+
+/-- **Consecutive rows are lexicographic successors**: row `i` is smaller than row `i+1` and
+    no composition lies strictly between them. -/
+theorem simplexGrid_consecutive (m n i : Nat) (hm : 1 ≤ m) (hi : i + 1 < numCompositions m n) :
+    ∃ x y, (sgRows m (numCompositions m n) (sgInit m n))[i]? = some x ∧
+      (sgRows m (numCompositions m n) (sgInit m n))[i + 1]? = some y ∧ x < y ∧
+      ∀ w : List Nat, w.length = m → w.sum = n → ¬ (x < w ∧ w < y) := by
+  obtain ⟨x, hx, lx, sx, ix⟩ := simplexGrid_row_spec m n i hm (by omega)
+  obtain ⟨y, hy, ly, sy, iy⟩ := simplexGrid_row_spec m n (i + 1) hm hi
+  refine ⟨x, y, hx, hy, ?_, ?_⟩
+  · rw [← simplexIndex_lt_iff m n hm x y lx ly sx sy, ix, iy]; omega
+  · rintro w lw sw ⟨h1, h2⟩
+    rw [← simplexIndex_lt_iff m n hm x w lx lw sx sw, ix] at h1
+    rw [← simplexIndex_lt_iff m n hm w y lw ly sw sy, iy] at h2
+    omega
+
+/-- the loop body on a state whose pointer `h` sits behind the last non-zero entry `v`
+    (explicit NEXCOM successor; all index arithmetic of `sgStep` is in range there) -/
+theorem sgStep_on_normal_form (pre : List Nat) (u v z m : Nat) (hm : m = pre.length + 2 + z) :
+    sgStep m ⟨pre ++ u :: v :: List.replicate z 0, pre.length + 2⟩
+      = ⟨pre ++ (u + 1) :: (List.replicate z 0 ++ [v - 1]),
+          if v ≠ 1 then m else pre.length + 1⟩ :=
+  sgStep_normal pre u v z m hm
+
+/-- **`simplex_index` is the lexicographic rank** on compositions: it is order preserving and
+    reflecting, injective, and takes values in `[0, L)`. -/
+theorem simplexIndex_lex_rank (m n : Nat) (hm : 1 ≤ m) (x y : List Nat)
+    (hx : x.length = m) (hy : y.length = m) (sx : x.sum = n) (sy : y.sum = n) :
+    (simplexIndex x m n < simplexIndex y m n ↔ x < y) ∧
+    (simplexIndex x m n = simplexIndex y m n → x = y) ∧
+    0 ≤ simplexIndex x m n ∧ simplexIndex x m n < numCompositions m n := by
+  refine ⟨simplexIndex_lt_iff m n hm x y hx hy sx sy,
+    simplexIndex_injective m n hm x y hx hy sx sy, ?_, ?_⟩
+  · obtain ⟨i, _, ei, _⟩ := simplexGrid_complete m n hm x hx sx
+    omega
+  · obtain ⟨i, hi, ei, _⟩ := simplexGrid_complete m n hm x hx sx
+    omega
+
+example : simplexIndex [1, 2, 1] 3 4 = 7 ∧ simplexIndex [1, 3, 0] 3 4 = 8 := by decide
 
 end QE.C16
